@@ -454,7 +454,23 @@ func Defer[T any](factory func() Observable[T]) Observable[T] {
 func Future[T any](factory func() (T, error)) Observable[T] {
 	return NewUnsafeObservableWithContext(func(ctx context.Context, destination Observer[T]) Teardown {
 		go recoverUnhandledError(func() {
-			v, err := factory()
+			var (
+				v   T
+				err error
+			)
+
+			// A panic of the factory is a failure of this stream: the subscriber receives it as an
+			// Error, like a panic of any other subscribe function.
+			lo.TryCatchWithErrorValue(
+				func() error {
+					v, err = factory()
+					return nil
+				},
+				func(e any) {
+					err = newObservableError(recoverValueToError(e))
+				},
+			)
+
 			if err != nil {
 				destination.ErrorWithContext(ctx, err)
 				return
